@@ -350,6 +350,10 @@ struct B<'a> {
     files: Vec<SFile>,
     slots: Vec<Slot>,
     ns_counter: Vec<usize>,
+    /// snake images of every component and member name handed out so far: yaserde 0.12 misreads
+    /// (or spins on) an element nested in an element of the same name, so names are kept unique
+    /// model-wide unless a profile asks for collisions
+    taken: BTreeSet<String>,
 }
 
 fn style_of(s: u8) -> Style {
@@ -389,7 +393,14 @@ impl B<'_> {
         for e in &raw.extra {
             words.push(EXTRA[*e as usize % EXTRA.len()].to_string());
         }
-        Name { words, style: style_of(raw.style) }
+        let mut name = Name { words, style: style_of(raw.style) };
+        let mut t = 0;
+        while self.taken.contains(&name.snake()) && t < EXTRA.len() {
+            name.words.push(EXTRA[(k + t) % EXTRA.len()].to_string());
+            t += 1;
+        }
+        self.taken.insert(name.snake());
+        name
     }
     /// member name, distinct (snake image) from everything in `used`
     fn member_name(&mut self, raw: &RawName, used: &mut BTreeSet<String>, salt: usize) -> Name {
@@ -410,7 +421,16 @@ impl B<'_> {
                 words.push(EXTRA[*e as usize % EXTRA.len()].to_string());
             }
             let n = Name { words, style: style_of(raw.style) };
-            if used.insert(n.snake()) {
+            if !self.taken.contains(&n.snake()) && used.insert(n.snake()) {
+                self.taken.insert(n.snake());
+                return n;
+            }
+        }
+        // pools exhausted for this shape: lengthen the name until it is new
+        for t in 0..FIRST.len() * EXTRA.len() {
+            let n = Name { words: vec![FIRST[(salt + t) % FIRST.len()].to_string(), EXTRA[t % EXTRA.len()].to_string(), EXTRA[(t / EXTRA.len() + salt) % EXTRA.len()].to_string(), "x".repeat(2 + t % 3)], style: style_of(raw.style) };
+            if !self.taken.contains(&n.snake()) && used.insert(n.snake()) {
+                self.taken.insert(n.snake());
                 return n;
             }
         }
@@ -647,7 +667,31 @@ impl B<'_> {
                     out.max_inclusive = Some(lo.max(hi));
                 }
             }
-        } else if base_builtin == Some("string") || base_builtin == Some("normalizedString") || base_builtin.is_none() {
+            if base_builtin.is_some_and(|b| b == "negativeInteger" || b == "nonPositiveInteger") {
+                for v in [&mut out.min_inclusive, &mut out.max_inclusive, &mut out.min_exclusive, &mut out.max_exclusive] {
+                    if let Some(x) = v {
+                        *x = -(x.abs() + 2);
+                    }
+                }
+                if let (Some(lo), Some(hi)) = (out.min_inclusive, out.max_inclusive) {
+                    out.min_inclusive = Some(lo.min(hi));
+                    out.max_inclusive = Some(lo.max(hi));
+                }
+            }
+            // small carriers: keep the bounds inside the value space of the base
+            if let Some(b) = base_builtin {
+                let (lo, hi): (i32, i32) = match b {
+                    "byte" => (-128, 127),
+                    "unsignedByte" => (0, 255),
+                    _ => (i32::MIN, i32::MAX),
+                };
+                for v in [&mut out.min_inclusive, &mut out.max_inclusive, &mut out.min_exclusive, &mut out.max_exclusive] {
+                    if let Some(x) = v {
+                        *x = (*x).clamp(lo + 2, hi - 2);
+                    }
+                }
+            }
+        } else if base_builtin == Some("string") || base_builtin == Some("normalizedString") {
             match f.kind % 5 {
                 0 => {}
                 1 => out.max_length = Some(f.b.max(1)),
@@ -668,7 +712,7 @@ impl B<'_> {
 
 pub fn build(raw: &RawModel, p: &Profile) -> (Model, BuildStats) {
     let n = raw.files.len().min(p.max_files.max(1));
-    let mut b = B { p, stats: BuildStats::default(), files: vec![], slots: vec![], ns_counter: vec![0; n] };
+    let mut b = B { p, stats: BuildStats::default(), files: vec![], slots: vec![], ns_counter: vec![0; n], taken: BTreeSet::new() };
     // file skeletons; imports point to higher indices only (acyclic), start file = 0
     for (i, rf) in raw.files.iter().take(n).enumerate() {
         let mut imports: Vec<usize> = vec![];
@@ -778,7 +822,28 @@ pub fn build(raw: &RawModel, p: &Profile) -> (Model, BuildStats) {
                                     b.stats.feat("simple.derived");
                                 }
                             }
-                            let bb = if let TypeRef::Builtin(x) = &bt { Some(x.clone()) } else { None };
+                            // the builtin at the root of the derivation chain decides which facets make sense
+                            let bb: Option<String> = {
+                                let mut cur = bt.clone();
+                                let mut found = None;
+                                for _ in 0..8 {
+                                    match &cur {
+                                        TypeRef::Builtin(x) => {
+                                            found = Some(x.clone());
+                                            break;
+                                        }
+                                        TypeRef::Named(q) => match &b.files[q.file].comps[q.comp].kind {
+                                            CompKind::Simple(SimpleKind::Restriction { base, .. }) => cur = base.clone(),
+                                            // list / union: carried as text
+                                            _ => {
+                                                found = Some("string".to_string());
+                                                break;
+                                            }
+                                        },
+                                    }
+                                }
+                                found
+                            };
                             let f = b.facets(bb.as_deref(), facets);
                             SimpleKind::Restriction { base: bt, facets: f }
                         }
